@@ -976,17 +976,19 @@ def replay_group(job):
     """job: actions (without exp), strict alternatives, dev alternatives (prefix-indexed), shape, variant, pick
     returns list of results, one per concrete run"""
     acts, alts, types, variant, pick, nchunks, want_trace = job
+    acts = json.loads(acts)
+    alts = [json.loads(a) for a in alts]
     results = []
     # resolve abstract fault positions to concrete FS calls, one faulted step after the other
     plansets = [{}]
-    for k, a in enumerate(acts):
-        f = a.get('f')
-        if not f or f['kind'] == 'none':
-            continue
+    faulted = [k for k, a in enumerate(acts) if (a.get('f') or {}).get('kind', 'none') != 'none']
+    for k in faulted:
+        f = acts[k]['f']
         new = []
         for plans in plansets:
             _, _, wins, _ = run_actions(acts[:k + 1], types, variant, plans, observe=False)
-            pts = concrete_points(save_segment(wins[k]), f, nchunks, pick)
+            # all concrete calls for the last fault of the behaviour, one representative for earlier ones
+            pts = concrete_points(save_segment(wins[k]), f, nchunks, pick if k == faulted[-1] else variant)
             for pt in pts:
                 q = dict(plans)
                 q[k] = {pt: f['kind']}
@@ -1307,61 +1309,61 @@ def corruption_sweep(arg):
 # ============================================================================ the check
 
 def _emit(cfg, timeout=1100):
-    """Gen_Persistent behaviour emission (like core.emit_behaviours, with a faster reader for the big output)"""
+    """Gen_Persistent behaviour emission (like core.emit_behaviours; the output is large, so behaviours are
+    reduced at once to  action sequence (json text) -> set of expected-state sequences (json text))"""
     r = run_tlc('Gen_Persistent', cfg, workers=1, timeout=timeout)
     if r.violated or not r.ok:
         raise MachineryError(f'behaviour emission Gen_Persistent/{cfg} failed: {r.violated or r.error}\n{r.out[-2000:]}')
-    behs = []
-    pat = '<<"BEH", "'
-    for line in r.out.splitlines():
-        if line.startswith(pat) and line.endswith('">>'):
-            behs.append(json.loads(line[len(pat):-3].replace('\\"', '"').replace('\\\\', '\\')))
-    return r, behs
-
-
-def _actions(beh):
-    return [{k: v for k, v in s.items() if k not in ('exp', 'alt')} for s in beh]
-
-
-def _group(behs):
     groups = {}
-    for b in behs:
-        acts = _actions(b)
-        groups.setdefault(json.dumps(acts, sort_keys=True), (acts, []))[1].append([s['exp'] for s in b])
-    return groups
+    n = 0
+    pat = '<<"BEH", "'
+    out = r.out
+    r.out = out[-3000:]
+    pos = 0
+    while True:
+        i = out.find(pat, pos)
+        if i < 0:
+            break
+        j = out.find('">>\n', i)
+        beh = json.loads(out[i + len(pat):j].replace('\\"', '"').replace('\\\\', '\\'))
+        pos = j
+        n += 1
+        acts = [{k: v for k, v in s.items() if k not in ('exp', 'alt')} for s in beh]
+        groups.setdefault(json.dumps(acts, sort_keys=True), set()).add(json.dumps([s['exp'] for s in beh], sort_keys=True))
+    return r, n, groups
 
 
 class DevIndex:
     """behaviours of the as-implemented variant (Dev = {"BelieveEarly"}), looked up by action sequence / prefix"""
 
-    def __init__(self, behs):
-        self.behs = [(_actions(b), [s['exp'] for s in b]) for b in behs]
-        self.full = {}
-        for acts, exps in self.behs:
-            self.full.setdefault(json.dumps(acts, sort_keys=True), []).append(exps)
+    def __init__(self, groups):
+        self.full = groups
         self.bylen = {}
 
     def prefix(self, acts):
         n = len(acts)
         if n not in self.bylen:
             d = {}
-            for a, e in self.behs:
+            for key, alts in self.full.items():
+                a = json.loads(key)
                 if len(a) >= n:
-                    d.setdefault(json.dumps(a[:n], sort_keys=True), {})[json.dumps(e[:n], sort_keys=True)] = e[:n]
+                    d.setdefault(json.dumps(a[:n], sort_keys=True), set()).update(
+                        json.dumps(json.loads(e)[:n], sort_keys=True) for e in alts)
             self.bylen[n] = d
-        return list(self.bylen[n].get(json.dumps(acts, sort_keys=True), {}).values())
+        return self.bylen[n].get(json.dumps(acts, sort_keys=True))
 
     def explains(self, acts, obs, upto):
-        """longest k >= upto such that some deviating behaviour allows obs[0..k-1]; 0 if none"""
-        alts = self.full.get(json.dumps(acts, sort_keys=True))
+        """(k, n): the deviating behaviours over acts[:n] allow obs[0..k-1]; n < len(acts) when only a prefix exists"""
         n = len(acts)
+        alts = self.full.get(json.dumps(acts, sort_keys=True))
         while alts is None and n > upto:
             n -= 1
-            alts = self.prefix(acts[:n]) or None
+            alts = self.prefix(acts[:n])
         if not alts:
             return 0, n
         best = 0
         for e in alts:
+            e = json.loads(e)
             k = 0
             while k < n and _match(e[k], obs[k]):
                 k += 1
@@ -1384,28 +1386,35 @@ def _step_signature(acts, bad):
 def _gen_pass(chk, name, cfg, nchunks, shapes_per, want_traces, tracebag, strict, deviating):
     """spec -> code for one Gen configuration"""
     quick = chk.tier == 'quick'
-    r, behs = strict.result()
+    r, nbeh, groups = strict.result()
     chk.add_tlc(r)
-    groups = _group(behs)
     rnd = random.Random(chk.seed * 7919 + len(groups))
     jobs = []
-    for gi, (acts, alts) in enumerate(groups.values()):
+    three = '"P3"' in next(iter(groups))
+    for gi, (key, alts) in enumerate(groups.items()):
         for sh in range(shapes_per):
             k = rnd.randrange(1 << 30)
-            types = SHAPES[(gi + sh * 5 + chk.seed) % len(SHAPES)][:2 if 'P3' not in next(a for a in acts if a['act'] == 'start')['cfg'] else 3]
-            jobs.append((acts, alts, types, k, (k if quick else None), nchunks, (gi + sh) % want_traces == 0))
+            types = SHAPES[(gi + sh * 5 + chk.seed) % len(SHAPES)][:3 if three else 2]
+            jobs.append((key, sorted(alts), types, k, (k if quick else None), nchunks, (gi + sh) % want_traces == 0))
+    sample = json.loads(jobs[len(jobs) // 2][0]) if jobs else None
+    del groups
     res = pool_map(replay_group, jobs)
     dev = None
     nbad = 0
     for job, runs in zip(jobs, res):
-        acts = job[0]
+        acts = None
+        for x in runs:
+            if x.get('unmapped') or (not x['bad'] and not x.get('trace')):
+                continue
+            acts = json.loads(job[0])
+            break
         for x in runs:
             if x.get('unmapped'):
                 chk.notes['unmapped_fault_positions'] = chk.notes.get('unmapped_fault_positions', 0) + 1
                 continue
             chk.impl_traces += 1
-            nontriv = any((a.get('f') or {}).get('kind', 'none') != 'none' or a['act'] == 'corrupt' for a in acts)
-            chk.case(json.dumps([acts, job[2], x['plans']], sort_keys=True), nontriv)
+            chk.case(hash((job[0], job[2], json.dumps(x['plans'], sort_keys=True))),
+                     '"crash"' in job[0] or '"ioerror"' in job[0] or '"corrupt"' in job[0])
             if x.get('trace'):
                 tracebag.append({'gen': ['gen', name, acts, list(job[2]), job[3], x['plans']],
                                  'types': x['types'], 'trace': x['trace']})
@@ -1423,9 +1432,9 @@ def _gen_pass(chk, name, cfg, nchunks, shapes_per, want_traces, tracebag, strict
                 continue
             # is the run explained by the recorded deviation?  (Gen with Dev = {"BelieveEarly"})
             if dev is None:
-                rd, dbehs = deviating.result()
+                rd, _, dgroups = deviating.result()
                 chk.add_tlc(rd)
-                dev = DevIndex(dbehs)
+                dev = DevIndex(dgroups)
             matched, n = dev.explains(acts, bad['obs'], bad['step'] + 1)
             sig = _step_signature(acts, bad)
             if matched == n and n > bad['step']:
@@ -1436,10 +1445,11 @@ def _gen_pass(chk, name, cfg, nchunks, shapes_per, want_traces, tracebag, strict
                        'act': acts[matched]['act'], 'fault': (acts[matched].get('f') or {}).get('kind', 'none')}
                 detail['failed_beyond_deviation_at'] = matched
             chk.violation(sig, detail)
-    chk.notes.setdefault('gen', []).append({'cfg': cfg, 'behaviours': len(behs), 'action_sequences': len(groups),
+    chk.notes.setdefault('gen', []).append({'cfg': cfg, 'behaviours': nbeh, 'action_sequences': len(jobs) // shapes_per,
+                                            'executions': sum(len(r) for r in res),
                                             'runs_mismatching_strict_spec': nbad})
-    if behs:
-        chk.sample({'behaviour': _actions(behs[len(behs) // 2])})
+    if sample:
+        chk.sample({'behaviour': sample})
 
 
 def _validate(chk, items):
@@ -1511,7 +1521,7 @@ def _chunks(n, size):
 
 # (Gen configuration, datatype shapes per behaviour, every n-th execution also goes to trace validation)
 GEN_PLAN = {'quick': [('Gen_Persistent', 1, 5), ('Gen_PersistentC', 2, 5)],
-            'thorough': [('Gen_Persistent', 2, 40), ('Gen_PersistentB', 3, 20), ('Gen_PersistentM', 1, 40),
+            'thorough': [('Gen_Persistent', 2, 150), ('Gen_PersistentB', 3, 40), ('Gen_PersistentM', 1, 80),
                          ('Gen_PersistentC', 6, 20)]}
 
 
@@ -1550,10 +1560,14 @@ def run(chk):
     with ThreadPoolExecutor(6) as ex:
         mc = ex.submit(model_check, 'Persistent', f'MC_Persistent_{t}.cfg', timeout=1100)
         asimp = ex.submit(run_tlc, 'Persistent', 'MC_Persistent_asimplemented.cfg', timeout=300)
-        em = {}
-        for name, shapes_per, every in GEN_PLAN[t]:
-            for c in (f'{name}_{t}.cfg', f'{name}_{t}_dev.cfg'):
-                em[c] = ex.submit(_emit, c)
+        plan = GEN_PLAN[t]
+
+        def submit(i):
+            # emission of the strict and the deviating variant of configuration i (big outputs: at most 2 ahead)
+            return [ex.submit(_emit, f'{plan[i][0]}_{t}{sfx}.cfg') for sfx in ('', '_dev')]
+
+        ahead = 2 if quick else 1
+        em = {i: submit(i) for i in range(min(ahead, len(plan)))}
         # 1 design check
         chk.add_tlc(mc.result())
         r = asimp.result()
@@ -1563,10 +1577,14 @@ def run(chk):
         chk.notes['phase_s'] = {'mc': round(_t.time() - t0, 1)}
         # 2 spec -> code
         bag = []
-        for name, shapes_per, every in GEN_PLAN[t]:
+        for i, (name, shapes_per, every) in enumerate(plan):
+            if i + ahead < len(plan):
+                em[i + ahead] = submit(i + ahead)
             cfg = f'{name}_{t}.cfg'
             nchunks = int(re.search(r'NChunks = (\d+)', (SPEC / cfg).read_text()).group(1))
-            _gen_pass(chk, name, cfg, nchunks, shapes_per, every, bag, em.pop(cfg), em.pop(f'{name}_{t}_dev.cfg'))
+            strict, deviating = em.pop(i)
+            _gen_pass(chk, name, cfg, nchunks, shapes_per, every, bag, strict, deviating)
+            del strict, deviating
 
     chk.notes['phase_s']['gen_replay'] = round(_t.time() - t0, 1)
     t0 = _t.time()
